@@ -621,6 +621,8 @@ def run(L, tier, only=None):
     L.lemma_time_budget = 900.0 if tier == "quick" else 3000.0
     ks = [(0, 0), (0, 1), (1, 2), (0, 3), (1, 3), (0, 4)] if tier == "quick" else [(0, 0), (0, 1), (1, 1), (0, 2), (1, 2), (0, 3), (1, 3), (0, 4), (1, 4), (0, 5), (1, 5), (0, 6)]
     for kb, ka in ks:
+        if ka >= 6 and getattr(L.ex, "flavour", "on") != "on":
+            continue            # the 6-character family (45 min) is run with overflow checks on only; the lexer's only arithmetic is pos += len
         nm = "step%d_%d" % (kb, ka)
         if not only or nm in only or "step" in only:
             L.lemma("C16 Lex::next, %d chars consumed, %d left" % (kb, ka), step_lemma(kb, ka))
